@@ -11,7 +11,7 @@ import z3
 
 from .core import forall, Unsupported, as_slist, is_sym, pack, unpack, zint
 from .interp import _MISSING, PyList
-from .types import BOOL, CHAR, INT, Abs, Opaque, SList, SV, sort_of
+from .types import BOOL, CHAR, INT, STR, Abs, Opaque, SList, SV, sort_of
 
 CharArr = z3.ArraySort(z3.IntSort(), z3.IntSort())
 
@@ -183,6 +183,8 @@ def val_term(I, v):
     if isinstance(v, SList) and v.ety == Abs("Val"):
         f = z3.Function("listval", sort_of(v.ty), Val())
         return f(pack(I.ctx, v, v.ty))
+    if isinstance(v, SV) and v.ty == STR:
+        return z3.Function("strval", z3.StringSort(), Val())(v.t)  # a string seen as a plain value (injection into Val)
     raise Unsupported(f"not an abstract value: {v!r}")
 
 
